@@ -810,6 +810,12 @@ asanyarray = asarray
 ascontiguousarray = asarray
 
 
+def copyto(dst, src, casting='same_kind', where=True):
+    if where is not True:
+        raise OutOfModel('np.copyto with a mask')
+    dst[...] = src
+
+
 def empty(shape, dtype=float, **kw):
     return wrap(_np.zeros(shape, dtype=as_dtype(dtype)) if as_dtype(dtype).kind != 'O' else _np.empty(shape, dtype=object))
 
